@@ -336,7 +336,7 @@ func groupSamRecords(sam io.Reader, cHeader chan biogosam.Header, chnl chan samR
 
 	var err error
 
-	s, err := biogosam.NewReader(sam)
+	s, err := biogosam.NewReader(newlineTerminated(sam))
 	if err != nil {
 		cerr <- err
 		return
@@ -409,4 +409,53 @@ func groupSamRecords(sam io.Reader, cHeader chan biogosam.Header, chnl chan samR
 	}
 
 	cdone <- true
+}
+
+// lineEnder is a reader that makes sure the stream it wraps ends with a newline
+type lineEnder struct {
+	r       io.Reader
+	last    byte
+	seen    bool
+	pending bool
+	done    bool
+}
+
+// newlineTerminated wraps a SAM stream so that its last line is newline-terminated: the SAM parser
+// reads line by line and silently drops a last line that has no newline at its end (as written by
+// some editors and by hand-made pipelines), which would lose that record
+func newlineTerminated(r io.Reader) io.Reader {
+	return &lineEnder{r: r}
+}
+
+func (l *lineEnder) Read(p []byte) (int, error) {
+	if l.done {
+		return 0, io.EOF
+	}
+	if len(p) == 0 {
+		return 0, nil
+	}
+	if l.pending {
+		p[0] = '\n'
+		l.done = true
+		return 1, nil
+	}
+	n, err := l.r.Read(p)
+	if n > 0 {
+		l.last, l.seen = p[n-1], true
+	}
+	if err == io.EOF {
+		if !l.seen || l.last == '\n' {
+			l.done = true
+			return n, io.EOF
+		}
+		if n < len(p) {
+			p[n] = '\n'
+			l.done = true
+			return n + 1, nil
+		}
+		// no room left in p: hand the newline out on the next call
+		l.pending = true
+		return n, nil
+	}
+	return n, err
 }
